@@ -1,4 +1,4 @@
-SPECIFICATION GSpec
+SPECIFICATION MCSpec
 CONSTANTS
   PfxNs <- T_PfxNs
   CanonPfx <- T_CanonPfx
@@ -15,11 +15,11 @@ CONSTANTS
   BodyUses <- T_BodyUses
   BodyPre <- T_BodyPre
   WinName <- T_WinName
-  Dev <- DevAsIs
-  MaxOv = 3
+  Dev <- DevIdeal
+  MaxOv = 2
   Bases <- BasesT
-  PoolJ <- PoolJ_Q
-  PoolD <- PoolD_Q
+  PoolJ <- PoolJ_T
+  PoolD <- PoolD_T
   Dumps <- DumpsT
   Parts = 1
   Part = 0
@@ -32,6 +32,7 @@ INVARIANT P2_BackupBeforeOverrides
 INVARIANT P2_RestoreUndoesOverrides
 INVARIANT P3_ProbeWritesNothing
 INVARIANT P3_ProbeIsRight
+INVARIANT P3_MarksAreFinalClosure
 INVARIANT P3_OtherMarksKept
-INVARIANT GenInv
+PROPERTY Terminates
 CHECK_DEADLOCK FALSE
